@@ -179,8 +179,12 @@ impl<'a, 'tcx> H<'a, 'tcx> {
             Lit(l) => self.lit(o.put_s("e", "lit"), l, false),
             Path(q) => {
                 o = self.res(o.put_s("e", "path"), q, e.hir_id);
-                if let Some(t) = self.ty_of(e) {
-                    o = o.put_s("ty", t);
+                // fn item types are long and carry nothing the resolved path does not
+                let is_fn = matches!(self.tr.expr_ty_opt(e).map(|t| t.kind()), Some(rustc_middle::ty::FnDef(..)));
+                if !is_fn {
+                    if let Some(t) = self.ty_of(e) {
+                        o = o.put_s("ty", t);
+                    }
                 }
                 o
             }
